@@ -10,7 +10,7 @@ META = {
         "text": "Kernel-checked: for all event sequences of the models, every internal event after the closed mark decreases a measure and a waiting Close is never blocked (close_terminates, full, via the message-tracking invariant; group_run_terminates on the GroupRun model; termination in finitely many steps given each network call returns), calls arriving after Close get io.ErrClosedPipe / io.EOF, cancelled blocked calls can return the context error, at CloseReturn every accepted message had its Completion and no goroutine/connection of the model is live; D1 documented by a decide-checked stuck state of the unrepaired step relation. Wall-clock bounds are observed by watchdogs only (partial).",
         "design_ref": "DESIGN.md §7 C08,C07,C01,C09(Writer) and C09 — Reader / ConsumerGroup / Transport part",
     },
-    "level_note": "Trusted: Lean kernel; propext/Classical.choice/Quot.sound; the hand-written LTS models (regenerated tie: 27 structural facts of the close protocol re-extracted by go/ast from writer.go/reader.go/consumergroup.go/transport.go on every run, Props/C09 proves they all hold and instantiates Cfg.fixed with the extracted fact; otherwise the models follow the source by hand and are tied by trace acceptance — existential over unobserved events for the Writer/Reader, deterministic over hook events for ConsumerGroup.run and Transport connections — internal events are existentially quantified by the oracle's state-set simulation, so an implementation whose internal order differs but whose observable behaviour is allowed is accepted); the Go runtime (WaitGroup, channels, timers) is modelled; the fakes (message-level RoundTripper, byte-level broker over net.Pipe); goroutine census by stack inspection. 'Bounded time' is a watchdog observation, not a theorem.",
+    "level_note": "Trusted: Lean kernel; propext/Classical.choice/Quot.sound; the hand-written LTS models (regenerated tie: 45 structural facts of the close protocol re-extracted by go/ast from writer.go/reader.go/consumergroup.go/transport.go/dialer.go on every run, Props/C09 proves they all hold and instantiates Cfg.fixed with the extracted fact; the Writer clause (safety, deadlock-freedom, termination measure) is also proved on the writer builder's Model/Writer.lean, which C01/C07/C08 tie by replaying W.* hook traces one event at a time; otherwise the models follow the source by hand and are tied by trace acceptance — existential over unobserved events for the Writer/Reader, deterministic over hook events for ConsumerGroup.run and Transport connections — internal events are existentially quantified by the oracle's state-set simulation, so an implementation whose internal order differs but whose observable behaviour is allowed is accepted); the Go runtime (WaitGroup, channels, timers) is modelled; the fakes (message-level RoundTripper, byte-level broker over net.Pipe); goroutine census by stack inspection. 'Bounded time' is a watchdog observation, not a theorem.",
 }
 
 MODULE = "KafkaVerif.Props.C09"
@@ -50,14 +50,29 @@ def run(ctx):
             m = re.match(r"(\w+) scenario (\d+)", want)
             if m:
                 env["VERIF_C09_ONLY"] = "%s:%s" % (m.group(1), m.group(2))
-        lines, rc, err = ctx.run_driver(drv, ["all"], env=env)
+        import subprocess
+        try:
+            lines, rc, err = ctx.run_driver(drv, ["all"], env=env, timeout=(1500 if ctx.tier == "thorough" else 600))
+        except subprocess.TimeoutExpired as te:
+            # the driver's own watchdog ends a blocked scenario after 60 s; getting here means it kept producing lines, slowly
+            def txt(b): return b.decode("utf-8", "replace") if isinstance(b, (bytes, bytearray)) else (b or "")
+            lines, rc, err = txt(te.stdout).split("\n"), 0, txt(te.stderr)
+            marks = re.findall(r"^scenario (\w+) (\d+)(?: took (\S+))?$", err, re.M)
+            slow = re.findall(r"^slow scenario .*$", err, re.M)
+            broken.append({"kind": "obligation", "name": "driver c09 did not finish within its time limit",
+                           "detail": "scenarios started: %d, last: %s; %s" % (len(marks), " ".join(marks[-1][:2]) if marks else "-", "; ".join(slow[-8:]))})
         crashed = None
         if rc != 0:
             last = re.findall(r"^scenario (\w+) (\d+)$", err, re.M)
-            pan = re.search(r"^(panic: .*|fatal error: .*)$", err, re.M)
+            pan = re.search(r"^(panic: .*|fatal error: .*|driver c09: no progress for 60 s)", err, re.M)
             if last and pan:
-                # the code under test died while this scenario ran: a concrete failing schedule
-                crashed = {"op": last[-1][0], "n": last[-1][1], "why": pan.group(1)[:300]}
+                # the code under test died (or the scenario hung past every bound) while this scenario ran: a concrete failing schedule
+                why = pan.group(1)[:300]
+                if why.startswith("driver c09"):
+                    # where the driver itself is blocked
+                    frames = re.findall(r"^main\.(\w+)\(.*\n\t\S*/(\w+\.go:\d+)", err, re.M)
+                    why += "; blocked in: " + ", ".join("%s %s" % f for f in frames[:8])
+                crashed = {"op": last[-1][0], "n": last[-1][1], "why": why}
             else:
                 broken.append({"kind": "obligation", "name": "driver c09 crashed", "detail": err[-1500:]})
         dis = ctx.correspond(lines, orc, "writer.go/reader.go/consumergroup.go/transport.go ↔ Model/WriterClose.lean, Model/ReaderClose.lean (observed-trace acceptance + monitor)")
@@ -73,10 +88,10 @@ def run(ctx):
             if "\t" in l:
                 o = l.split("\t")[1]
                 ctx.coverage["outcomes"][o] = ctx.coverage["outcomes"].get(o, 0) + 1
-    ctx.coverage["rule"] = ("Writer: 8 steered schedule families (Close while a call sits in its metadata lookup = D1 window, with/without earlier traffic, "
-                            "cancel inside lookup / while waiting for a batch, use after close; sync+async) x repetitions, plus random scripts of begin/hold/release/cancel/"
+    ctx.coverage["rule"] = ("Writer: 10 steered schedule families (Close while a call sits in its metadata lookup = D1 window, with/without earlier traffic, "
+                            "cancel inside lookup / while waiting for a batch that has no other way out, use after close, async write + Close from one goroutine on a single P; sync+async) x repetitions, plus random scripts of begin/hold/release/cancel/"
                             "close/probe/pause over BatchSize 1..3, MaxAttempts 1..3, BatchTimeout 1-3ms or 1h, produce outcomes ok/temporary/permanent. "
-                            "Writer of NewWriter over its own Transport against a protocol-level loopback broker (6 families: answered / failing / held produce, Close during the metadata refresh, cancel, use after close; census of broker-side connections and goroutines after the timeouts). Reader/ConsumerGroup/Transport: scenario families listed in docs/notes/C09.md; grun = ConsumerGroup.Close hook traces replayed deterministically through Model/GroupRun. distinct = distinct observed traces")
+                            "Writer of NewWriter over its own Transport against a protocol-level loopback broker (6 families: answered / failing / held produce, Close during the metadata refresh, cancel, use after close; census of broker-side connections and goroutines after the timeouts). Reader/ConsumerGroup/Transport: scenario families listed in docs/notes/C09.md (17 reader kinds incl. ListOffsets failures inside the fetcher's initialize, the lag monitor, partition watcher on every second scenario, 20 s back-offs on odd ones; 10 transport kinds incl. a connect that completes after its caller left); every scenario closes twice; grun = ConsumerGroup.Close hook traces replayed deterministically through Model/GroupRun. distinct = distinct observed traces")
     concrete = [d for d in dis if d.get("kind") == "disagreement" and not d["holds_on_impl"]]
     others = [d for d in dis if d not in concrete]
     recorded = 0
